@@ -150,6 +150,8 @@ func HandleBulkBody(postBody []byte, ctx *fasthttp.RequestCtx, rid uint64, myid 
 	var jsParsingStackbuf [utils.UnescapeStackBufSize]byte
 
 	allPLEs := make([]*writer.ParsedLogEvent, 0)
+	// item position (0-based) of every entry of allPLEs, per index name
+	itemPosOfIndex := make(map[string][]int)
 	defer func() {
 		writer.ReleasePLEs(allPLEs)
 	}()
@@ -220,6 +222,7 @@ func HandleBulkBody(postBody []byte, ctx *fasthttp.RequestCtx, rid uint64, myid 
 						success = false
 					} else {
 						allPLEs = append(allPLEs, ple)
+						itemPosOfIndex[indexName] = append(itemPosOfIndex[indexName], inCount-1)
 					}
 				}
 			} else {
@@ -272,7 +275,28 @@ func HandleBulkBody(postBody []byte, ctx *fasthttp.RequestCtx, rid uint64, myid 
 			jsParsingStackbuf[:], plesInBatch)
 		if err != nil {
 			log.Errorf("HandleBulkBody: failed to process index request, indexName=%v, err=%v", indexName, err)
-			// TODO: update `atleastOneSuccess`
+			// nothing of this batch was stored: its items are failures
+			for _, pos := range itemPosOfIndex[indexName] {
+				responsebody := make(map[string]interface{})
+				responsebody["index"] = utils.BulkErrorResponse{
+					ErrorResponse: *utils.NewBulkErrorResponseInfo("indexing request failed", "index_store_exception"),
+				}
+				responsebody["status"] = 500
+				items[pos] = responsebody
+				overallError = true
+				processedCount--
+			}
+		}
+	}
+	if overallError {
+		atleastOneSuccess = false
+		for i := 0; i < inCount; i++ {
+			if m, ok := items[i].(map[string]interface{}); ok {
+				if _, failed := m["status"]; !failed {
+					atleastOneSuccess = true
+					break
+				}
+			}
 		}
 	}
 
